@@ -336,6 +336,17 @@ func faults() []fault {
 			return expectError("the panicking function", err, res)
 		}})
 	}
+	if os.Getenv("VERIF_RACE_PASS") == "" {
+		// (not in the race-detector pass: the harness changes the limit of the live service, a write the
+		// handlers read without synchronisation by design)
+		fs = append(fs, fault{name: "request larger than MaxRequestLength", level: "conn", run: func(ep *endpoint, id int64) string {
+			old := ep.service.MaxRequestLength
+			ep.service.MaxRequestLength = 64
+			defer func() { ep.service.MaxRequestLength = old }()
+			res, err := ep.pa.Quick(strings.Repeat("L", 300))
+			return expectError("the call whose request exceeds the limit", err, res)
+		}})
+	}
 	fs = append(fs,
 		fault{name: "invoke plugin panics", level: "call", run: func(ep *endpoint, id int64) string {
 			res, err := ep.pa.Quick("PLUGIN-BOOM")
